@@ -3,12 +3,14 @@
 # then run the property's check(s) against it in /repo and always revert. Results go to /verif/seeded/<ID>-<n>/.
 set -u
 ID=$1; N=$2; shift 2; EXTRA="$*"
+PHASE=${SEED_PHASE:-all}   # all | confirm (scratch worktree only) | check (/repo only, after confirm)
 export GOFLAGS=-mod=mod GOPROXY=off GOSUMDB=off GOTOOLCHAIN=local
 WT=/tmp/seed/$ID; OUT=/tmp/seed/$ID.out; D=/verif/seeded/$ID-$N
 diff=$OUT/$ID-$N.diff
 demo=$(ls $OUT/$ID-${N}_demo* 2>/dev/null | grep -v "\.txt$" | head -1)
 [ -f "$diff" ] || { echo "no diff $diff"; exit 2; }
 mkdir -p $D; cp $diff $D/patch.diff; [ -n "$demo" ] && cp $demo $D/; cp $OUT/$ID-$N.meta.json $D/agent_meta.json 2>/dev/null
+if [ "$PHASE" != check ]; then
 git -C $WT checkout -q -- . ; git -C $WT clean -fdq
 log=$D/confirm.log; : > $log
 pkgdir=""
@@ -32,14 +34,20 @@ for m in $mods; do
     pk=$(grep '^+++ b/' $diff | sed 's#+++ b/##' | xargs -n1 dirname | sort -u | sed 's#^#./#' | tr '\n' ' ')
     (cd $WT && go build ./... && go test -count=1 $pk ./wallet/... ./waddrmgr/... ./chain/... 2>&1 ) > $D/suite.log 2>&1
     cat $D/suite.log >> $log
-    grep -P "^FAIL\t|^--- FAIL|build failed" $D/suite.log | grep -v "TestBitcoindEvents" | grep -vP "^FAIL\tgithub.com/btcsuite/btcwallet/chain\t" | grep -q . && suite=1
-    grep "^--- FAIL" $D/suite.log | grep -v "TestBitcoindEvents" | grep -q . && suite=1
+    grep -P "^FAIL\t|build failed" $D/suite.log | grep -vP "^FAIL\tgithub.com/btcsuite/btcwallet/chain\t" | grep -q . && suite=1
+    # timing-based tests of package chain flake under machine load; they only count when the change touches chain/
+    flaky="TestBitcoindEvents"; grep -q '^+++ b/chain/' $diff || flaky="TestBitcoindEvents|TestJitterTicker|TestPrunedBlockDispatcher"
+    grep "^--- FAIL" $D/suite.log | grep -vE "$flaky" | grep -q . && suite=1
   else
     (cd $WT/$m && go test -count=1 ./... ) >> $log 2>&1 || suite=1
   fi
 done
 git -C $WT checkout -q -- . ; git -C $WT clean -fdq
 echo "confirm: demo_unchanged_rc=$d0 demo_changed_rc=$d1 suite_fail=$suite mods=$(echo $mods)" | tee -a $log
+echo "$d0 $d1 $suite" > $D/confirm.rc
+fi
+[ "$PHASE" = confirm ] && exit 0
+read d0 d1 suite < $D/confirm.rc || { echo "no confirm.rc"; exit 2; }
 # run checks in /repo
 [ -n "$(git -C /repo status --porcelain)" ] && { echo "/repo dirty"; exit 2; }
 git -C /repo apply $diff || { echo "patch does not apply to /repo"; exit 2; }
